@@ -302,6 +302,12 @@ def run_check(mod, tier, seed, replay=None):
             "wall_s": round(wall, 2),
             "violations": len(lines),
         }
+        extra = getattr(mod, "extra_coverage", None)
+        if callable(extra):
+            try:
+                ev["coverage"].update(jsonable(extra()))
+            except Exception:
+                ev["coverage"]["extra_coverage_error"] = traceback.format_exc()[-500:]
         os.makedirs(EVID, exist_ok=True)
         with open(os.path.join(EVID, prop + ".json"), "w") as f:
             json.dump(ev, f, indent=1, default=str)
